@@ -1385,19 +1385,16 @@ namespace bloch::runtime {
                                             obj->fields[i].type == Value::Type::QubitArray)) {
                     recordTrackedValue(obj->cls->name + "." + fieldMeta.name, obj->fields[i]);
                 }
-                if (obj->fields[i].type == Value::Type::Qubit) {
-                    int q = obj->fields[i].qubit;
-                    ensureQubitExists(q, fieldMeta.line, fieldMeta.column);
-                    m_sim.reset(q);
-                    releaseQubit(q);
-                } else if (obj->fields[i].type == Value::Type::QubitArray) {
-                    for (int q : obj->fields[i].qubitArray) {
-                        ensureQubitExists(q, fieldMeta.line, fieldMeta.column);
-                        m_sim.reset(q);
-                        releaseQubit(q);
-                    }
-                }
             }
+            // Release the qubits this object allocated for its own fields. A field that was
+            // assigned a handle owned by someone else (a caller's qubit stored by a
+            // constructor) must not take that qubit down with it.
+            for (int q : obj->ownedQubits) {
+                ensureQubitExists(q, 0, 0);
+                m_sim.reset(q);
+                releaseQubit(q);
+            }
+            obj->ownedQubits.clear();
         }
         obj->fields.clear();
     }
@@ -1414,8 +1411,14 @@ namespace bloch::runtime {
             if (field.isStatic)
                 continue;
             auto& slot = obj->fields[field.offset];
-            if (slot.type == Value::Type::Void)
+            if (slot.type == Value::Type::Void) {
                 slot = defaultValueForField(field, cls->name);
+                if (slot.type == Value::Type::Qubit)
+                    obj->ownedQubits.push_back(slot.qubit);
+                else if (slot.type == Value::Type::QubitArray)
+                    obj->ownedQubits.insert(obj->ownedQubits.end(), slot.qubitArray.begin(),
+                                            slot.qubitArray.end());
+            }
             if (field.hasInitializer && field.initializer) {
                 auto prevClass = m_currentClassCtx;
                 bool prevStatic = m_inStaticContext;
@@ -2316,8 +2319,15 @@ namespace bloch::runtime {
             obj->owner = this;
             obj->fields.assign(cls->instanceFields.size(), {});
             for (auto& f : cls->instanceFields) {
-                if (!f.isStatic && f.offset < obj->fields.size())
+                if (!f.isStatic && f.offset < obj->fields.size()) {
                     obj->fields[f.offset] = defaultValueForField(f, cls->name);
+                    const Value& made = obj->fields[f.offset];
+                    if (made.type == Value::Type::Qubit)
+                        obj->ownedQubits.push_back(made.qubit);
+                    else if (made.type == Value::Type::QubitArray)
+                        obj->ownedQubits.insert(obj->ownedQubits.end(), made.qubitArray.begin(),
+                                                made.qubitArray.end());
+                }
             }
             {
                 std::lock_guard<std::mutex> lock(m_heapMutex);
